@@ -186,7 +186,9 @@ def replay(ck, em, rec):
             return bad("WideMachine", "%d features (the scenario's features repeated %d times), units x%g: log_likelihood %s, "
                        "expected %s" % (D * T, T, a, got.tolist(), exp_llw.tolist()))
         st2 = g2.acc_stats(Xw)
-        if not (np.all(np.isfinite(np.asarray(st2.n))) and abs(float(np.sum(st2.n)) - n) <= 1e-9 * n):
+        # responsibilities are exp(lwl - ll): their rounding error is eps * |lwl| (far tails have |lwl| ~ 1e7)
+        slack = max(1e-9, 16 * np.finfo(float).eps * float(np.max(np.abs(exp_llw)))) * n
+        if not (np.all(np.isfinite(np.asarray(st2.n))) and abs(float(np.sum(st2.n)) - n) <= slack):
             return bad("WideMachine", "%d features, units x%g: responsibilities %s do not sum to %d" % (D * T, a, np.asarray(st2.n).tolist(), n))
     ck.sample({"mechanism": "M2", "scenario": scn, "log_likelihood": ll.tolist(), "verdict": "ok"})
 
